@@ -5,7 +5,7 @@
  "enforce": ["crypto_entropy_read"],
  "replace": ["instantiate", "reseed", "generate"],
  "annotate": ["crypto/crypto_entropy.c"],
- "defines": ["VERIF_HALLOC", "HM_DMAX=0", "HM_LOGN=1"],
+ "defines": ["VERIF_HALLOC", "HM_DMAX=48", "HM_LOGN=1"],
  "models": ["models/drbg_hmac.c", "models/drbg_os.c"],
  "timeout": 300,
  "assumptions": ["instantiate, reseed, generate replaced by their contracts (each enforced in its own C11 group)",
